@@ -61,6 +61,31 @@ pub fn run_measure(case: &Value) -> Value {
                 Err(e) => json!({"r": "err", "e": format!("{:?}", e)}),
             }
         }
+        // the generator itself (no queued draws): threads that start measuring at the same moment, and the shots of one measure_n,
+        // draw independently - the records are compared, not the distribution
+        "independence" => {
+            quant_iron::verif_hooks::clear_draws();
+            let nq = vu(&case["n"]);
+            let plus = State::new_plus(nq).unwrap();
+            let threads = vu(&case["threads"]); let per = vu(&case["per_thread"]);
+            let barrier = std::sync::Barrier::new(threads);
+            let records: Vec<Vec<i64>> = std::thread::scope(|sc| {
+                let hs: Vec<_> = (0..threads).map(|_| sc.spawn(|| {
+                    barrier.wait();
+                    (0..per).map(|_| plus.measure(MeasurementBasis::Computational, &[]).map(|m| outcome_int(&m)).unwrap_or(-1)).collect::<Vec<i64>>()
+                })).collect();
+                hs.into_iter().map(|h| h.join().unwrap()).collect()
+            });
+            let mut identical_pairs = 0;
+            for i in 0..records.len() { for j in (i + 1)..records.len() { if records[i] == records[j] { identical_pairs += 1; } } }
+            let shots = vu(&case["shots"]);
+            let (distinct, failed) = match plus.measure_n(MeasurementBasis::Computational, &[], shots) {
+                Ok(v) => { let mut o: Vec<i64> = v.iter().map(outcome_int).collect(); o.sort(); o.dedup(); (o.len(), false) }
+                Err(_) => (0, true),
+            };
+            json!({"r": "ok", "identical_pairs": identical_pairs, "threads": threads, "per_thread": per, "first_record": records[0], "shots": shots, "distinct": distinct,
+                   "measure_n_failed": failed, "input_unchanged": true})
+        }
         // locate, by bisection on the draw, every point of [0,1) where the sampled outcome changes
         "boundaries" => {
             let f = |d: f64| -> i64 { match one(&st, b, &qs, d) { Ok(m) => outcome_int(&m), Err(_) => -1 } };
